@@ -233,6 +233,52 @@ def run(ctx: Ctx) -> None:
     okret = bool(rets) and all(_under_empty_stack(cfgb, r) for r in rets)
     ctx.ob("R14.5", "parser:CxxParser._consume_balanced_tokens|returns only with an empty stack", okret, msg="the balanced consumer can return while brackets are still open", node=cb, mod=mod)
 
+    # ---------------------------------------------------------------- R14.7
+    # A source token that the parser consumed as a FLAG (token_if("ELLIPSIS") -> param_pack = True)
+    # and then re-creates inside a value (val.tokens.append(Token("...", "ELLIPSIS"))) is reported
+    # twice unless the flag is cleared on that path: the value then holds a token "taken from the
+    # surrounding declaration" and the flag describes something that is not there.
+    ctx.rule("R14.7", "a token consumed as a flag and re-created inside a value is not reported as the flag as well", minimum=1)
+    for fname, fn in pm.methods.items():
+        cfg = pm.cfg(fname)
+        rd = None
+        for n in cfg.nodes:
+            if n.kind != "stmt" or not isinstance(n.stmt, ast.Expr) or not isinstance(n.stmt.value, ast.Call):
+                continue
+            c = n.stmt.value
+            if not (norm(c.func).endswith(".tokens.append") and len(c.args) == 1 and isinstance(c.args[0], ast.Call) and norm(c.args[0].func) == "Token"
+                    and len(c.args[0].args) == 2 and all(isinstance(a, ast.Constant) for a in c.args[0].args)):
+                continue
+            ttype = c.args[0].args[1].value
+            # flags set True under a consumption of that token type
+            flags = set()
+            for m in cfg.nodes:
+                if m.kind == "stmt" and isinstance(m.stmt, ast.Assign) and isinstance(m.stmt.value, ast.Constant) and m.stmt.value.value is True:
+                    deps = cfg.control_deps(m)
+                    if any(lab == "T" and f"token_if('{ttype}')" in norm(d.cond) for d, lab in deps):
+                        flags |= {t.id for t in m.stmt.targets if isinstance(t, ast.Name)}
+            for flag in sorted(flags):
+                if not any(lab == "T" and flag in {x.id for x in ast.walk(d.cond) if isinstance(x, ast.Name)} for d, lab in cfg.control_deps(n)):
+                    continue
+                # from the append: is the flag read (passed on) before being cleared?
+                leaked = None
+                seen = set()
+                st = [s_ for s_, lab in n.succ if lab != "exc"]
+                while st and leaked is None:
+                    x = st.pop()
+                    if x.id in seen:
+                        continue
+                    seen.add(x.id)
+                    if x.kind == "stmt" and isinstance(x.stmt, ast.Assign) and any(isinstance(t, ast.Name) and t.id == flag for t in x.stmt.targets):
+                        continue
+                    if x.kind == "stmt" and any(isinstance(y, ast.Call) and any(isinstance(a, ast.Name) and a.id == flag for a in list(y.args) + [k.value for k in y.keywords]) for y in x.walk()):
+                        leaked = x
+                        break
+                    st.extend(s_ for s_, lab in x.succ if lab != "exc")
+                ctx.ob("R14.7", f"parser:CxxParser.{fname}|`{short(c, 50)}` while `{flag}` is set", leaked is None,
+                       msg=f"the {ttype} token is consumed as the flag `{flag}` and re-created inside the value by `{short(c, 60)}`, and `{flag}` is still passed on in `{short(leaked.stmt, 60) if leaked is not None else ''}`: the token is reported twice (as a value token and as the flag)",
+                       node=n.stmt, mod=mod)
+
     # ---------------------------------------------------------------- R14.6
     # pragma contents end at the line end: a discarded token that swallows its newline must
     # end the directive, or the next declaration's tokens become part of the pragma's Value
